@@ -49,7 +49,8 @@ SITES = {
                 '/s.css': {'body': 'body{}', 'ctype': 'text/css'}}), ['http://a.test/']),
     'twohost': (S({'/': {'links': ['http://b.test/x', '/a', 'http://b.test/']},
                    '/a': {'links': ['http://b.test/x']}},
-                  {'b.test': {'/x': {'links': ['http://a.test/hidden']},
+                  {'b.test': {'/x': {'links': ['http://a.test/hidden', 'http://b.test/deep']},
+                              '/deep': {'links': []},
                               '/': {'links': []}}}), ['http://a.test/']),
     'parent': (S({'/dir/index.html': {'links': ['/dir/sub/p', '/other/q', '/dir/../up',
                                                 'sub/../q2']},
@@ -116,6 +117,10 @@ OPTSETS = {
     'r-np': (['-r', '--no-parent'], dict(recursive=True, no_parent=True)),
     'r-p-np': (['-r', '-p', '--no-parent'], dict(recursive=True, page_requisites=True,
                                                  no_parent=True)),
+    # pages on other hosts that a start-host page links to are fetched, their own links to
+    # other hosts are not
+    'r-sal': (['-r', '--span-hosts-allow', 'linked-pages'],
+              dict(recursive=True, span_allow_linked=True)),
     'r-acc': (['-r', '--accept-regex', r'test/($|a|b|1|2|dir/|p|u|r1|m)'],
               dict(recursive=True, accept_regex=r'test/($|a|b|1|2|dir/|p|u|r1|m)')),
     'r-rej': (['-r', '--reject-regex', r'/(c|t|2|k\.png|sub/)'],
@@ -344,7 +349,7 @@ def jobs(tier, seed):
         'spell': ['r', 'r-l1'],
         'redir': ['r', 'r-rej', 'r-l1', 'r-acc'],
         'reqs': ['r-p', 'p', 'r', 'r-p-l1', 'r-rej'],
-        'twohost': ['r', 'r-p'],
+        'twohost': ['r', 'r-p', 'r-sal'],
         'parent': ['r-np', 'r'],
         'frameout': ['r-p-np', 'r-p'],
         'depth': ['r', 'r-l1', 'r-l2', 'r-rej', 'r-acc'],
